@@ -47,9 +47,14 @@ func HistogramQuantile(hist Histogram, q float64) float64 {
 	}
 
 	goal := uint(float64(total) * q)
-	if goal <= under || goal > total-over {
+	if goal >= total && total > 0 {
+		// q == 1: the last sample.
+		goal = total - 1
+	}
+	if goal < under || goal >= total-over {
 		return math.NaN()
 	}
+	goal -= under
 	for bin, count := range counts {
 		if count > goal {
 			return hist.BinToValue(float64(bin) + float64(goal)/float64(count))
